@@ -9,7 +9,11 @@ K: random filter trees (depth <= 5) are loaded into the real engine; irconv's IR
    measured verdicts of the atomic predicates (vm_compute inside coqc).
 O: laws checked directly on observed report sets (complement, intersection, union, De Morgan, double negation,
    short circuit against a panicking right operand, ==/!= operand swap, x<c vs !(x>=c)) and every comparison against
-   the Go operator applied to the go/types / source-text value.
+   the Go operator applied to the go/types / source-text value. Shared-spelling families: several groups of one engine
+   spell the same Where() text over named constants of different values; each group must mean the Go operators on ITS
+   constants, and loading the groups together must equal loading each alone (a filter is a function of its expression,
+   not of its source text or of what was loaded before). P also covers that: go2coq lists every irLoader field /
+   package-level variable newFilter's call graph touches; nothing may be written, only configuration read.
 """
 import json
 import os
@@ -56,10 +60,16 @@ def value_of(site, kind, var):
 
 def run(c):
     thorough = c.tier == "thorough"
+    c.go2coq_sources = ["filters.go", "filters_types.go", "filters_state.go"]   # private translator build: another family's generator cannot break this check
     c.rule = ("random Where() trees (depth<=5) over 12 atomic predicates (one of them a custom filter that panics) and "
               "comparisons of Line/Type.Size/Value.Int()/Text against constants (either side) and other captures, each "
-              "run on 38 probe-site shapes; a case is distinct by its DSL text, non-trivial when it accepts some and "
-              "rejects some site, panics, or is refused at load; law families relate 10 rules over the same operands")
+              "run on 40 probe-site shapes; a case is distinct by its DSL text, non-trivial when it accepts some and "
+              "rejects some site, panics, or is refused at load; law families relate 10 rules over the same operands; "
+              "shared-spelling families: 6 groups in one engine (one or two rules files) whose Where() text is identical "
+              "over named constants (function-local, file-level shadowed by some groups, or literals inside an equally "
+              "named group-local macro) with different values per group -- one family per kind of constant-carrying filter "
+              "(Line/Type.Size/Value.Int()/Text either side, list captures, regexps, type strings, kinds, node tags, "
+              "Contains patterns) plus random trees; non-trivial when the groups' values differ")
     c.trusted += [
         "go2coq filtertables (reads the switch statements / closures by AST shape, refuses unknown shapes)",
         "go/constant.Compare, go/types (Sizeof, constant values), token.FileSet line numbers, source text of a node",
@@ -69,8 +79,8 @@ def run(c):
     ]
     c.notes += ["gogrep delivers the captures; Go type checking of the rules file precedes irconv (ill-typed comparisons never reach it)"]
 
-    build_own_theories(c, "Base/Outcome.v", "Filters/FilterIR.v", "Filters/FilterAlgebra.v")
-    c.require_theories("Base/Outcome.v", "Filters/FilterIR.v", "Filters/FilterAlgebra.v")
+    build_own_theories(c, "Base/Outcome.v", "Filters/FilterIR.v", "Filters/FilterAlgebra.v", "Filters/LoaderState.v")
+    c.require_theories("Base/Outcome.v", "Filters/FilterIR.v", "Filters/FilterAlgebra.v", "Filters/LoaderState.v")
 
     # ---- P
     gen_ok = False
@@ -86,10 +96,10 @@ def run(c):
 
     state = {"round": 0}
 
-    def observe_and_compare(ntrees, nfam, seed):
+    def observe_and_compare(ntrees, nfam, seed, nshared=8):
         state["round"] += 1
         tag = "r%d" % state["round"]
-        rc, out = c.run_harness(hb, ["-seed", str(seed), "-trees", str(ntrees), "-families", str(nfam),
+        rc, out = c.run_harness(hb, ["-seed", str(seed), "-trees", str(ntrees), "-families", str(nfam), "-shared", str(nshared),
                                      "-tmp", os.path.join(c.work, "tmp")], timeout=1200)
         sites, rules, meta = {}, [], None
         for line in out.splitlines():
@@ -113,6 +123,10 @@ def run(c):
 
         def inp(r, extra=None):
             d = {"where": r["src"], "pattern": "p%d($x, $y, $*zs)" % r["j"], "seed": seed}
+            if r.get("values"):
+                d["group_locals"] = r.get("locals", "")
+                d["file_level_constants"] = r.get("file_consts", "")
+                d["constants"] = r["values"]
             if extra:
                 d.update(extra)
             return d
@@ -264,7 +278,60 @@ def run(c):
                             bad = sorted(acc(r) ^ e)[:3]
                             c.fail("oracle", "`x.%s == y.%s` is accepted but is not the Go == on the two values" % (KINDS[kind], KINDS[ci["other"]]),
                                    input=inp(r, {"sites": [site_desc(i, j) for i in bad]}), expected=sorted(e), observed=sorted(acc(r)))
+            elif fam.startswith("shared"):
+                # groups of one engine whose filters are spelled identically over named constants with different values
+                atom_acc = {int(a["role"]): set(a["accept"]) for a in atoms}
+
+                def ev(t, i, j):
+                    k = t["k"]
+                    if k == "not":
+                        return not ev(t["x"], i, j)
+                    if k == "and":
+                        return ev(t["x"], i, j) and ev(t["y"], i, j)
+                    if k == "or":
+                        return ev(t["x"], i, j) or ev(t["y"], i, j)
+                    if k == "atom":
+                        return i in atom_acc[t["atom"]]
+                    const = t["int"] if t.get("int") is not None else t["str"].encode()
+                    site = sites[(i, j)]
+                    if t["var"] == "zs":
+                        vs = [(v["size"] if t["kind"] == 1 else (None if v["int"] is None else int(v["int"]))) for v in site["rest"]]
+                        return all(v is not None and GO_OPS[t["tok"]](v, const) for v in vs)
+                    v = value_of(site, t["kind"], t["var"])
+                    return v is not None and GO_OPS[t["tok"]](v, const)
+
+                members = [m[k] for k in sorted(m, key=lambda k: int(k[1:]))]
+                spell = {r["src"] for r in members}
+                if len(spell) != 1:
+                    c.obligation("harness-sanity:shared-spelling", False, "members of %s are not spelled identically: %r" % (fam, sorted(spell)))
+                if len({json.dumps(r["values"], sort_keys=True) for r in members}) > 1:
+                    c.nontriv(("shared-spelling", fam, members[0]["src"]))
+                others = lambda r: [{"group": "g%d" % o["idx"], "file": o["file_no"], "constants": o["values"]} for o in members if o is not r]
+                for r in members:
+                    j = r["j"]
+                    al = r["alone"]
+                    if not clean(r) or al.get("load_err") or al.get("panic"):
+                        c.fail("oracle", "a panic-free filter over named constants panics or is refused", input=inp(r, {"loaded_with": others(r)}),
+                               observed={"together": r.get("panic") or r.get("load_err"), "alone": al.get("panic") or al.get("load_err")})
+                        continue
+                    e = {i for i in range(N) if ev(r["tree"], i, j)}
+                    if acc(r) != e:
+                        bad = sorted(acc(r) ^ e)[:3]
+                        c.fail("oracle", "a group's filter does not mean the Go operators applied to the constants the group declares "
+                               "(other groups of the engine spell the same filter over other values)",
+                               input=inp(r, {"loaded_with": others(r), "sites": [site_desc(i, j) for i in bad]}),
+                               expected=sorted(e), observed=sorted(acc(r)))
+                    if set(al["accept"]) != acc(r):
+                        bad = sorted(acc(r) ^ set(al["accept"]))[:3]
+                        c.fail("oracle", "loading a group together with other groups changes what its filter accepts",
+                               input=inp(r, {"loaded_with": others(r), "sites": [site_desc(i, j) for i in bad]}),
+                               expected={"alone": sorted(al["accept"])}, observed={"together": sorted(acc(r))})
+                    elif set(al["accept"]) != e:
+                        bad = sorted(set(al["accept"]) ^ e)[:3]
+                        c.fail("oracle", "a group loaded alone does not mean the Go operators applied to the constants it declares",
+                               input=inp(r, {"sites": [site_desc(i, j) for i in bad]}), expected=sorted(e), observed=sorted(al["accept"]))
         c.coverage["law_families_" + tag] = len([f for f in fams if f.startswith(("conn", "cmp"))])
+        c.coverage["shared_spelling_families_" + tag] = len([f for f in fams if f.startswith("shared")])
 
         # ---------------------------------------------------------------- K: model vs implementation inside Coq
         if not gen_ok:
@@ -327,13 +394,18 @@ def run(c):
             s = sites[(i, j)]
             iv = lambda v: None if v["int"] is None else int(v["int"])
             rest = "[" + "; ".join("(%s, %s)" % (copt(v["size"]), copt(iv(v))) for v in s["rest"]) + "]"
-            av = "[" + "; ".join("None" if atomv[a][i] is None else "Some " + coq_bool(atomv[a][i]) for a in sorted(atomv)) + "]"
-            return "({| lx := %s; ly := %s; sx := %s; sy := %s; ix := %s; iy := %s; tx := %s; ty := %s; rest := %s |}, %s)" % (
+            return "{| lx := %s; ly := %s; sx := %s; sy := %s; ix := %s; iy := %s; tx := %s; ty := %s; rest := %s |}" % (
                 cz(s["line_x"]), cz(s["line_y"]), copt(s["x"]["size"]), copt(s["y"]["size"]), copt(iv(s["x"])), copt(iv(s["y"])),
-                cstr(s["text_x"]), cstr(s["text_y"]), rest, av)
+                cstr(s["text_x"]), cstr(s["text_y"]), rest)
 
-        sites_src = "\n".join(pre) + "\nDefinition sites : list (list (sfacts * list (option bool))) := [\n" + ";\n".join(
-            "[" + ";\n ".join(sfacts(i, j) for i in range(N)) + "]" for j in range(W)) + "].\n"
+        def avrow(i):
+            return "[" + "; ".join("None" if atomv[a][i] is None else "Some " + coq_bool(atomv[a][i]) for a in sorted(atomv)) + "]"
+
+        # the measured verdicts of the atomic predicates depend on the site shape only, not on the probe column
+        sites_src = "\n".join(pre) + "\nDefinition site_facts : list (list sfacts) := [\n" + ";\n".join(
+            "[" + ";\n ".join(sfacts(i, j) for i in range(N)) + "]" for j in range(W)) + "].\n" + \
+            "Definition atom_verdicts : list (list (option bool)) := [\n" + ";\n".join(avrow(i) for i in range(N)) + "].\n" + \
+            "Definition sites : list (list (sfacts * list (option bool))) := map (fun l => combine l atom_verdicts) site_facts.\n"
         ok, out = c.coq_eval("Sites_%s.v" % tag, sites_src, timeout=600)
         if not ok:
             c.obligation("coq-eval:Sites_%s.v" % tag, False, out[-2000:])
@@ -390,11 +462,11 @@ def run(c):
         for r in rules[len(atoms) + 3:len(atoms) + 5] + [r for r in rules if r["role"] == "or_boom"][:1]:
             c.sample({"where": r["src"], "accept": r["accept"], "panic": r.get("panic", "")})
 
-    ntrees, nfam = (260, 20) if not thorough else (2500, 160)
-    observe_and_compare(ntrees, nfam, c.seed)
+    ntrees, nfam, nshared = (260, 20, 6) if not thorough else (2500, 160, 80)
+    observe_and_compare(ntrees, nfam, c.seed, nshared)
 
     def search():
-        observe_and_compare(900, 60, c.seed + 7)
+        observe_and_compare(900, 60, c.seed + 7, 40)
 
     c.coverage["exhaustive"] = False
     c.finish(search=search)
